@@ -141,7 +141,8 @@ class Constant(Leaf):
             #   the text starts on a line of its own, so that indenting the
             #   rule keeps the relative indentation of its lines
             return f'```\n{trim(literal)}```'
-        return f'`{literal}`'
+        # NOTE evaluation trims the text: the blanks at its ends are not part of it
+        return f'`{literal.strip()}`'
 
     @cached_property
     def _nullable(self) -> bool:
